@@ -5,6 +5,7 @@ import (
 	"context"
 	"fmt"
 	"io"
+	"strconv"
 	"sync"
 	"sync/atomic"
 	"time"
@@ -29,6 +30,7 @@ type c15Desc struct {
 	Ender   string      `json:"withheld_end,omitempty"` // cancel | close
 	Seed    uint64      `json:"seed"`
 	Perturb int32       `json:"perturb"`
+	Long    bool        `json:"long,omitempty"`
 }
 
 func init() {
@@ -43,7 +45,7 @@ func init() {
 		CaseTimeout: 120 * time.Second,
 		ChildSetup:  func() { installPointHooks(false) },
 		Require: func(tier string) map[string]int64 {
-			return map[string]int64{"ping_calls": 1500, "pings_completed_by_own_pong": 500, "pings_withheld": 200, "foreign_or_duplicate_pongs_sent": 200, "received_pings_answered": 2000}
+			return map[string]int64{"ping_calls": 1500, "pings_completed_by_own_pong": 500, "pings_withheld": 200, "foreign_or_duplicate_pongs_sent": 200, "received_pings_answered": 2000, "connections_receiving_more_than_1000_pings": 3, "ping_rounds_beyond_the_500th_of_a_connection": 500}
 		},
 		Assumptions: []string{
 			"a Ping call is associated with the Ping frame that appears at the peer after the call started and before the next call is started (calls are started one at a time, they wait concurrently)",
@@ -100,6 +102,16 @@ func c15Gen(tier string, seed int64) []fw.Case {
 		d := c15Desc{Kind: "behind-stuck-writer", Seed: rng.U64(), Role: bothRoles[i%2], Params: allParams[(i/2)%len(allParams)], Reader: "Read"}
 		dd := d
 		cases = append(cases, fw.Case{Name: fmt.Sprintf("behind-stuck-writer/%s/%s", d.Role, paramsKey(d.Params)), Desc: dd, Run: func(r *fw.R) { c15BehindStuckWriter(r, dd) }})
+	}
+	for i := 0; i < tierPick(tier, 12, 120); i++ {
+		d := c15Desc{Kind: "long-sequence", Seed: rng.U64(), Role: bothRoles[i%2], Params: allParams[(i/2)%len(allParams)], Reader: []string{"CloseRead", "Read"}[i/2%2], N: 600 + rng.Intn(900)}
+		dd := d
+		cases = append(cases, fw.Case{Name: fmt.Sprintf("long-sequence/%s/%s/rounds=%d", d.Role, d.Reader, d.N), Desc: dd, Run: func(r *fw.R) { c15LongSequence(r, dd) }})
+	}
+	for i := 0; i < tierPick(tier, 12, 120); i++ {
+		d := c15Desc{Kind: "received", Seed: rng.U64(), Long: true, Role: bothRoles[i%2], Params: allParams[(i/2)%len(allParams)], Reader: []string{"Read", "Read", "CloseRead"}[i%3]}
+		dd := d
+		cases = append(cases, fw.Case{Name: fmt.Sprintf("received-long/%s/%s/%s", d.Role, paramsKey(d.Params), d.Reader), Desc: dd, Run: func(r *fw.R) { c15Received(r, dd) }})
 	}
 	m := tierPick(tier, 200, 4000)
 	for i := 0; i < m; i++ {
@@ -390,16 +402,26 @@ func c15Received(r *fw.R, d c15Desc) {
 		r.Key("received/%s/%s/%s/ping-%s/len=%s", d.Role, d.Reader, paramsKey(d.Params), where, sizeClass(n))
 	}
 	nm := 3 + rng.Intn(4)
+	idle := 20
+	if d.Long {
+		// a long history on one connection: hundreds of messages and well over a thousand Pings
+		nm = 300 + rng.Intn(300)
+		idle = 1200 + rng.Intn(800)
+	}
 	if d.Reader == "CloseRead" {
 		nm = 0
-		for i := 0; i < 20; i++ {
+		for i := 0; i < idle; i++ {
 			ping("idle")
 		}
 	}
 	nmsgs := 0
 	for m := 0; m < nm; m++ {
 		ping("between")
-		payload := genPayload(rng, []int{0, 10, 300, 5000}[rng.Intn(4)], rng.Intn(5), nil)
+		psize := []int{0, 10, 300, 5000}[rng.Intn(4)]
+		if d.Long && psize > 300 {
+			psize = 40
+		}
+		payload := genPayload(rng, psize, rng.Intn(5), nil)
 		compressed := d.Params.Deflate && rng.Bool()
 		wp := payload
 		if compressed {
@@ -429,7 +451,14 @@ func c15Received(r *fw.R, d c15Desc) {
 		nmsgs++
 	}
 	ping("after")
-	r.SetSample(map[string]any{"desc": d, "ping_payload_lengths": lens, "messages": nmsgs})
+	slens := lens
+	if len(slens) > 40 {
+		slens = slens[:40]
+	}
+	r.SetSample(map[string]any{"desc": d, "ping_payload_lengths_first_40": slens, "pings": len(lens), "messages": nmsgs})
+	if len(want) > 1000 {
+		r.Count("connections_receiving_more_than_1000_pings", 1)
+	}
 
 	var got int32
 	readerDone := make(chan struct{})
@@ -483,7 +512,7 @@ func c15Received(r *fw.R, d c15Desc) {
 	peer.Locked(func() {
 		gotP := peer.Conf.Pongs
 		if !ok {
-			r.Violate("C15/received-ping-not-answered", fmt.Sprintf("%s: %d Pings sent (lengths %v), %d Pongs received within 15 s", what, len(want), lens, len(gotP)), "")
+			r.Violate("C15/received-ping-not-answered", fmt.Sprintf("%s: %d Pings sent (first lengths %v), %d Pongs received within 15 s", what, len(want), slens, len(gotP)), "")
 			return
 		}
 		for i := range want {
@@ -502,6 +531,140 @@ func c15Received(r *fw.R, d c15Desc) {
 }
 
 var _ = websocket.MessageText
+
+// c15LongSequence runs many hundred rounds of Ping calls on ONE connection. In each round 1-3 calls are
+// started, the raw peer sees their frames and answers them one at a time in a seeded order - each own Pong
+// optionally preceded by a Pong that repeats the payload of a ping completed LONG AGO, by the payload the next
+// ping might use (sent before that ping exists), or by a foreign payload. Per own Pong exactly one call may
+// complete, with nil, and only after that Pong started to be sent (logical clock).
+func c15LongSequence(r *fw.R, d c15Desc) {
+	r.SetSample(d)
+	setPerturb(d.Seed, 0)
+	c, _, peerEnd, err := libConn(d.Role, d.Params, 0, xport.Plan{}, xport.Plan{})
+	if err != nil {
+		r.Violate("C15/attach-failed", err.Error(), "")
+		return
+	}
+	defer c.CloseNow()
+	defer peerEnd.Close()
+	peer := newRawPeer(peerEnd, d.Role, d.Params, d.Seed)
+	pingCh := make(chan []byte, 64)
+	peer.OnFrame = func(f wire.Frame) {
+		if f.Op == wire.OpPing {
+			pingCh <- append([]byte(nil), f.Payload...)
+		}
+	}
+	peer.Start()
+	ctx, cancel := context.WithTimeout(context.Background(), 100*time.Second)
+	defer cancel()
+	if d.Reader == "CloseRead" {
+		c.CloseRead(ctx)
+	} else {
+		go func() {
+			for {
+				if _, _, err := c.Read(ctx); err != nil {
+					return
+				}
+			}
+		}()
+	}
+	rng := fw.NewRand(d.Seed)
+	what := fmt.Sprintf("%s %s reader=%s long sequence", d.Role, paramsKey(d.Params), d.Reader)
+	var old [][]byte // payloads of pings completed earlier on this connection
+	seen := map[string]int{}
+	for round := 0; round < d.N; round++ {
+		n := 1
+		if rng.Intn(4) == 0 {
+			n = 2 + rng.Intn(2)
+		}
+		type res struct {
+			err error
+			ret uint64
+		}
+		results := make(chan res, n)
+		for i := 0; i < n; i++ {
+			go func() {
+				err := c.Ping(ctx)
+				results <- res{err, tick()}
+			}()
+		}
+		var payloads [][]byte
+		for i := 0; i < n; i++ {
+			select {
+			case pl := <-pingCh:
+				if prev, dup := seen[string(pl)]; dup && round-prev < 64 {
+					r.Violate("C15/ping-payload-reused", fmt.Sprintf("%s: round %d: the Ping payload %q was already used in round %d of this connection", what, round, pl, prev), "")
+					return
+				}
+				seen[string(pl)] = round
+				payloads = append(payloads, pl)
+			case rs := <-results:
+				r.Violate("C15/ping-completed-without-own-pong/long-sequence", fmt.Sprintf("%s: round %d: a Ping returned (%v) before the peer had answered anything in this round", what, round, rs.err), "")
+				return
+			case <-time.After(10 * time.Second):
+				r.Violate("C15/ping-frame-not-sent", fmt.Sprintf("%s: round %d: no Ping frame reached the peer within 10 s", what, round), "")
+				return
+			}
+		}
+		r.Count("ping_calls", int64(n))
+		for k := len(payloads) - 1; k > 0; k-- {
+			j := rng.Intn(k + 1)
+			payloads[k], payloads[j] = payloads[j], payloads[k]
+		}
+		for k, pl := range payloads {
+			switch rng.Intn(6) {
+			case 0:
+				if len(old) > 0 {
+					peer.Send(wire.Pong(old[rng.Intn(len(old))]))
+					r.Count("foreign_or_duplicate_pongs_sent", 1)
+				}
+			case 1:
+				peer.Send(wire.Pong(append([]byte("z"), pl...)))
+				r.Count("foreign_or_duplicate_pongs_sent", 1)
+			case 2:
+				// the payload a later ping might use, if payloads are decimal counters: it answers nothing now
+				// and must not pre-answer that ping later
+				if v, err := strconv.Atoi(string(pl)); err == nil {
+					peer.Send(wire.Pong([]byte(strconv.Itoa(v + n + rng.Intn(3)))))
+					r.Count("pongs_sent_for_pings_not_yet_made", 1)
+				}
+			}
+			// nothing may have completed on the strength of those
+			select {
+			case rs := <-results:
+				r.Violate("C15/ping-completed-without-own-pong/long-sequence", fmt.Sprintf("%s: round %d: a Ping returned (%v) although %d of the %d outstanding pings had not been answered with their payload", what, round, rs.err, len(payloads)-k, n), "")
+				return
+			default:
+			}
+			sent := tick()
+			peer.Send(wire.Pong(pl))
+			select {
+			case rs := <-results:
+				if rs.err != nil {
+					r.Violate("C15/ping-not-completed-by-own-pong/long-sequence", fmt.Sprintf("%s: round %d: Ping returned %v after its Pong (%q) was sent", what, round, rs.err, pl), "")
+					return
+				}
+				if rs.ret < sent {
+					r.Violate("C15/ping-returned-before-own-pong", fmt.Sprintf("%s: round %d: Ping returned at %d, its Pong was sent at %d", what, round, rs.ret, sent), "")
+					return
+				}
+				r.Count("pings_completed_by_own_pong", 1)
+			case <-time.After(10 * time.Second):
+				r.Violate("C15/ping-not-completed-by-own-pong/long-sequence", fmt.Sprintf("%s: round %d: the Pong for %q was sent but no Ping had returned 10 s later", what, round, pl), "")
+				return
+			}
+			if len(old) < 32 {
+				old = append(old, pl)
+			} else if rng.Intn(8) == 0 {
+				old[rng.Intn(32)] = pl
+			}
+		}
+		if round >= 500 {
+			r.Count("ping_rounds_beyond_the_500th_of_a_connection", 1)
+		}
+	}
+	r.Key("long-sequence/%s/%s/%s", d.Role, d.Reader, paramsKey(d.Params))
+}
 
 // c15Burst releases N Ping calls at the same instant (in rounds) against a peer
 // that answers every Ping frame with its payload: every call must return nil and
